@@ -17,7 +17,7 @@ import (
 
 // signBytesOf returns the bytes the SIGNER computes from the message value; with node=true, the bytes the NODE's signature verifier computes: the
 // transaction is encoded, decoded, and every message has been through ValidateBasic (the ante chain validates before it verifies signatures).
-func (c *Chain) signBytesOf(msg sdk.Msg, mode signing.SignMode, node bool) (h string, panicked bool) {
+func (c *Chain) signBytesOf(msg sdk.Msg, mode signing.SignMode, node bool, more ...sdk.Msg) (h string, panicked bool) {
 	defer func() {
 		if r := recover(); r != nil {
 			h, panicked = "unavailable", !strings.Contains(fmt.Sprint(r), "LegacyMsg")
@@ -25,7 +25,7 @@ func (c *Chain) signBytesOf(msg sdk.Msg, mode signing.SignMode, node bool) (h st
 	}()
 	txCfg := c.App.TxConfig()
 	b := txCfg.NewTxBuilder()
-	if err := b.SetMsgs(msg); err != nil {
+	if err := b.SetMsgs(append([]sdk.Msg{msg}, more...)...); err != nil {
 		return "unavailable", false
 	}
 	b.SetGasLimit(200000)
@@ -87,6 +87,45 @@ func cmdSignBytes(args []string) error {
 			var cs M
 			if e := json.Unmarshal(line, &cs); e != nil {
 				return e
+			}
+			if cs["pair"] != nil {
+				// two messages A, B of one type: the four two-message transactions [A,B] [B,A] [A,A] [B,B] must have pairwise different sign bytes in
+				// every mode (each message's bytes are embedded in the transaction's: what is signed for a batch names every message of it)
+				pr := cs["pair"].([]any)
+				rec := M{"ev": "pair", "i": i, "id": str(cs, "id"), "distinct": true, "panic": false, "which": ""}
+				for _, md := range []struct {
+					name string
+					mode signing.SignMode
+				}{{"direct", signing.SignMode_SIGN_MODE_DIRECT}, {"aux", signing.SignMode_SIGN_MODE_DIRECT_AUX}, {"amino", signing.SignMode_SIGN_MODE_LEGACY_AMINO_JSON}} {
+					seen := map[string]string{}
+					for _, combo := range [][2]int{{0, 1}, {1, 0}, {0, 0}, {1, 1}} {
+						ma, e1 := c.concMsg(pr[combo[0]].(M))
+						mb, e2 := c.concMsg(pr[combo[1]].(M))
+						if e1 != nil || e2 != nil {
+							return fmt.Errorf("pair case: %v %v", e1, e2)
+						}
+						h, p := c.signBytesOf(ma, md.mode, false, mb)
+						if p {
+							rec["panic"] = true
+						}
+						if h == "unavailable" {
+							continue
+						}
+						tag := fmt.Sprintf("%d%d", combo[0], combo[1])
+						if other, dup := seen[h]; dup {
+							rec["distinct"], rec["which"] = false, md.name+":"+other+"="+tag
+						}
+						seen[h] = tag
+					}
+				}
+				bz, _ := json.Marshal(rec)
+				out.Write(bz)
+				out.WriteByte('\n')
+				i++
+				if err == io.EOF {
+					break
+				}
+				continue
 			}
 			m := cs["m"].(M)
 			rec := M{"ev": "case", "i": i, "id": str(cs, "id"), "type": str(m, "type"), "akey": str(cs, "akey"), "det": true, "panic": false}
